@@ -46,10 +46,10 @@ CFG = {
     "n": {"quick": 6000, "thorough": 100000},
     "trivial_tags": ["plain", "end"],
     "rule": "owner-tree programs on the real reactive_graph under the controlled executor: bodies (token lists) of "
-            "effects (Effect::new/new_sync/new_isomorphic/watch, RenderEffect, AsyncDerived)/memos that create signals, stored values, cleanups (plain and registering-during-cleanup), contexts, "
+            "effects (Effect::new/new_sync/new_isomorphic/watch/watch_sync, RenderEffect, AsyncDerived)/memos that create signals, stored values, cleanups (plain and registering-during-cleanup), contexts, "
             "nested effects/memos/owners; histories of creation under up to two nested `Owner::with`, `cleanup`, handle drop, "
             "`dispose`, direct `with_cleanup`, signal writes + poll/idle schedules, pause/resume, context lookups; first block = the re-run matrix "
-            "(9 kinds of owner-scoped re-run x 7 classes of what the body allocates: only plain arena values / only cleanups / only child owners / "
+            "(11 kinds of owner-scoped re-run x 7 classes of what the body allocates: only plain arena values / only cleanups / only child owners / "
             "nested effect / nested memo / mixture / nothing, x 2 endings), then every sequence of "
             "3 (thorough: 4) ops over a 14-op alphabet after a fixed nested-effect prelude (exhaustive small scope), rest = seeded random "
             "(depth <= 5); a case = one history; distinct = distinct op list; non-trivial = a case with a re-run, nested creation, "
@@ -62,7 +62,7 @@ CFG = {
     ],
     "modelled": ["Owner::{new, child, with, with_cleanup, cleanup, on_cleanup, register, pause, resume}", "impl Cleanup for RwLock<OwnerInner>",
                  "Drop for OwnerInner", "Arena (SlotMap)", "ArenaItem::{new_with_storage, try_with_value, dispose, is_disposed}",
-                 "provide_context/use_context/take_context", "StoredValue", "Effect::new / new_sync / new_isomorphic / watch task loops + channel close", "RenderEffect::new", "AsyncDerived::new (future ready at once)", "Memo (signal sources only)"],
+                 "provide_context/use_context/take_context", "StoredValue", "Effect::new / new_sync / new_isomorphic / watch / watch_sync task loops + channel close (watch handler as repaired by hooks/fix-c08-2.patch)", "RenderEffect::new", "AsyncDerived::new (future ready at once)", "Memo (signal sources only)"],
     "assumptions": [
         "default features (one process-wide arena; `sandboxed-arenas` off); single thread",
         "values stored in the arena do not themselves call back into the arena from their destructors while the arena lock is held "
